@@ -18,6 +18,8 @@ N15 `match t { Enum::A => { X } #[cfg(c)] Enum::B => { Y } _ => {} }` as a state
     unit variant  ->  `if t == Enum::A { X }  #[cfg(c)] if t == Enum::B { Y }`   (the patterns are disjoint, so the order is free)
 N18 `match M.entry(K) { Entry::Occupied(o) => { A }, Entry::Vacant(v) => { .. v.insert(V) .. } }`  ->
     `if M.contains_key(&K) { A } else { .. M.insert(K, V) .. }`  (o unused)  /  `if let Some(o) = M.get_mut(&K) { A[o.into_mut() := o] } else { .. }`
+N27 `for x in I.filter(|p| C) { B }` (also through a single-use `let it = I.filter(..)`) -> `for x in I { if C { B } }`
+N26 `let v = I.find(..); if let P = v { .. }` -> `if let P = I.find(..) { .. }` (then the find-loop desugaring applies)
 N19 inside `if V.is_none() { .. }`:  `let mut it = I.filter(|q| C); if let Some(p) = it.next() { if it.next().is_none() { V = Some(E); } }`
     ->  `for p in I { if C[q:=p] { if V.is_some() { V = None; break; } V = Some(E); } }`   (unique-match selection)
 N20 `let h = match S { P1 => f1, P2 => f2 }; .. h(args)` (h used exactly once, as the callee; every arm value a function path)
@@ -736,6 +738,87 @@ def _merge_guard_arms(m):
     return m
 
 
+def _let_into_next_iflet(stmts):
+    """N26 `let v = E; if let P = v { .. }` (v immutable, used nowhere else) -> `if let P = E { .. }`: E is evaluated at the same point"""
+    for i in range(len(stmts) - 1):
+        a, b = stmts[i], stmts[i + 1]
+        if a.get('k') != 'Local' or not isinstance(a.get('init'), dict) or a.get('else') is not None or a.get('attrs'):
+            continue
+        p = a['pat']
+        while p.get('k') == 'Type':
+            p = p['pat']
+        if p.get('k') != 'Ident' or p.get('mut') or p.get('by_ref') or p.get('sub'):
+            continue
+        name = p['name']
+        if b.get('k') != 'Expr' or not isinstance(b.get('expr'), dict) or b['expr'].get('k') != 'If':
+            continue
+        c = b['expr'].get('cond')
+        if not isinstance(c, dict) or c.get('k') != 'Let' or c['expr'].get('k') != 'Path' or c['expr']['path'].get('s') != name:
+            continue
+        if a['init'].get('k') != 'MethodCall' or a['init'].get('method') != 'find':
+            continue
+        if _uses(stmts[i + 1:], name) != 1:
+            continue
+        import copy as _c
+        iff = _c.copy(b['expr'])
+        iff['cond'] = dict(c, expr=a['init'])
+        nb = dict(b, expr=norm(iff))
+        return stmts[:i] + [nb] + stmts[i + 2:]
+    return None
+
+
+def _let_into_next_for(stmts):
+    """N27a `let it = I.filter(..); for P in it { .. }` (it immutable, used nowhere else) -> `for P in I.filter(..) { .. }`"""
+    for i in range(len(stmts) - 1):
+        a, b = stmts[i], stmts[i + 1]
+        if a.get('k') != 'Local' or not isinstance(a.get('init'), dict) or a.get('else') is not None or a.get('attrs'):
+            continue
+        p = a['pat']
+        while p.get('k') == 'Type':
+            p = p['pat']
+        if p.get('k') != 'Ident' or p.get('mut') or p.get('by_ref') or p.get('sub'):
+            continue
+        name = p['name']
+        if b.get('k') != 'Expr' or not isinstance(b.get('expr'), dict) or b['expr'].get('k') != 'For':
+            continue
+        it = b['expr'].get('expr')
+        if not isinstance(it, dict) or it.get('k') != 'Path' or it['path'].get('s') != name:
+            continue
+        if a['init'].get('k') != 'MethodCall' or a['init'].get('method') != 'filter':
+            continue
+        if _uses(stmts[i + 1:], name) != 1:
+            continue
+        nb = dict(b, expr=norm(dict(b['expr'], expr=a['init'])))
+        return stmts[:i] + [nb] + stmts[i + 2:]
+    return None
+
+
+def _filter_loop(n):
+    """N27b `for x in I.filter(|p| C) { B }` -> `for x in I { if C[p := x] { B } }` (filter is lazy and keeps the order)"""
+    it = n.get('expr')
+    if not (isinstance(it, dict) and it.get('k') == 'MethodCall' and it.get('method') == 'filter' and len(it.get('args', [])) == 1
+            and it['args'][0].get('k') == 'Closure' and len(it['args'][0]['params']) == 1):
+        return None
+    q = it['args'][0]['params'][0]
+    while q.get('k') in ('Ref', 'Type'):
+        q = q['pat']
+    x = n.get('pat')
+    while isinstance(x, dict) and x.get('k') in ('Ref', 'Type'):
+        x = x['pat']
+    if q.get('k') != 'Ident' or not isinstance(x, dict) or x.get('k') != 'Ident':
+        return None
+    cond = it['args'][0]['body']
+    while cond.get('k') == 'Block' and len(cond['stmts']) == 1 and cond['stmts'][0]['k'] == 'Expr' and not cond['stmts'][0]['semi']:
+        cond = cond['stmts'][0]['expr']
+    if cond.get('k') == 'Block':
+        return None
+    if q['name'] != x['name']:
+        cond = _rename_ident(cond, q['name'], x['name'])
+    l = n.get('l', 0)
+    inner = {'k': 'If', 'cond': cond, 'then': n['body'], 'else': None, 'l': l, 'desugared': 'filter'}
+    return dict(n, expr=it['recv'], body={'k': 'Block', 'stmts': [{'k': 'Expr', 'expr': inner, 'semi': False, 'l': l}], 'l': l})
+
+
 def norm(n):
     if isinstance(n, list):
         return [norm(x) for x in n]
@@ -756,6 +839,14 @@ def norm(n):
         r24 = _classify_dispatch(n['stmts'])
         if r24 is not None:
             n['stmts'] = r24
+        r26 = _let_into_next_iflet(n['stmts'])
+        while r26 is not None:
+            n['stmts'] = r26
+            r26 = _let_into_next_iflet(n['stmts'])
+        r27 = _let_into_next_for(n['stmts'])
+        while r27 is not None:
+            n['stmts'] = r27
+            r27 = _let_into_next_for(n['stmts'])
         out = []
         for st in n['stmts']:
             rep = _any_let(st)
@@ -767,6 +858,10 @@ def norm(n):
                 rep = _entry_match(st)
             out.extend(rep if rep is not None else [st])
         n['stmts'] = out
+    if k == 'For':
+        r27b = _filter_loop(n)
+        if r27b is not None:
+            n = r27b
     if k == 'Match' and any(a.get('guard') is not None for a in n.get('arms', [])):
         n = _merge_guard_arms(n)
     if k == 'Match' and any(a['pat'].get('k') == 'Or' for a in n.get('arms', [])):
